@@ -550,6 +550,15 @@ mut('x7-nil-struct-pointer', ['C10', 'C09'], ['X7'], [('values/value.go',
 			return nilValue
 		}
 		if rv.Type().Elem().Kind() == reflect.Struct {''')], 'a nil pointer to a struct stays a struct value: truthy')
+mut('p15-yaml-elem-unchecked', ['C01'], ['P15'], [('values/convert.go',
+ '''				if !ev.Type().ConvertibleTo(et) {
+					return nil, conversionError("slice element", ev, et)
+				}
+				result = reflect.Append(result, ev.Convert(et))''',
+ '''				result = reflect.Append(result, ev.Convert(et))''')], 'an element of a YAML map slice is converted without the test: Convert panics on {a: [1]} to []int')
+mut('p15-mapkey-oneway', ['C01'], ['P15'], [('values/value.go',
+ '''	case it.ConvertibleTo(kt) && kt.ConvertibleTo(it):''',
+ '''	case it.ConvertibleTo(kt):''')], 'the way back is no longer tested: a slice index converts to an array key type and not back')
 out = '/verif/selftest/mutants'
 for d in os.listdir(out):
     if d.startswith('own-'):
